@@ -269,6 +269,15 @@ pub fn run(ctx: &Ctx) -> i32 {
                     acc.cov("toml-in-another-directory");
                 }
             }
+            // now and then a valid configuration that selects nothing at all: the run still replaces the report
+            let empty_selection = !failing && !args.iter().any(|a| a == "--toml") && rng.chance(1, 10);
+            if empty_selection {
+                std::fs::create_dir_all(format!("{}/cfgdir", base)).unwrap();
+                std::fs::write(format!("{}/cfgdir/none.toml", base), toml_text(Some(&tree), &[], &[], &[])).unwrap();
+                args.push("--toml".into());
+                args.push(format!("{}/cfgdir/none.toml", base));
+                acc.cov("configuration:selects-nothing");
+            }
             if failing {
                 std::fs::write(format!("{}/bad.toml", base), toml_text(None, &["no_such_pattern".to_string()], &[], &[])).unwrap();
                 args.push("--toml".into());
@@ -279,7 +288,12 @@ pub fn run(ctx: &Ctx) -> i32 {
             let mut before_reference: Snap = Snap::new();
             snapshot(&base, "", &mut before_reference);
             let clean = scratch_dir("c18clean");
-            let reference = run_solstat(&clean, &["--path", &tree]).ok().and_then(|o| if o.code == Some(0) { o.report } else { None });
+            let reference = if empty_selection {
+                let nt = format!("{}/cfgdir/none.toml", base);
+                run_solstat(&clean, &["--path", &tree, "--toml", &nt]).ok().and_then(|o| if o.code == Some(0) { o.report } else { None })
+            } else {
+                run_solstat(&clean, &["--path", &tree]).ok().and_then(|o| if o.code == Some(0) { o.report } else { None })
+            };
             let _ = std::fs::remove_dir_all(&clean);
             let mut before: Snap = Snap::new();
             snapshot(&base, "", &mut before);
@@ -291,6 +305,39 @@ pub fn run(ctx: &Ctx) -> i32 {
                     format!("tree-modified:{}:{}", if removed { "removed" } else { "changed" }, cls),
                     json!({"cwd": "a fresh empty directory outside the tree", "argv": ["--path", tree.strip_prefix(&base).unwrap_or(&tree)], "step": step, "tree": to_json(&ents), "paths": changed}),
                 );
+            }
+            // stale reports that are almost what the run is going to write: the expected text with CRLF line ends, with one
+            // digit changed (same size), with an extra line, or exactly the expected text
+            if !failing && rng.chance(1, 4) {
+                if let Some(refr) = &reference {
+                    let text = String::from_utf8_lossy(refr).to_string();
+                    let variant = match rng.below(4) {
+                        0 => {
+                            acc.cov("previous-report:expected-text-with-crlf");
+                            text.replace('\n', "\r\n")
+                        }
+                        1 => {
+                            acc.cov("previous-report:expected-text-one-digit-changed");
+                            match text.rfind(|c: char| c.is_ascii_digit()) {
+                                Some(p) => {
+                                    let d = text.as_bytes()[p];
+                                    let nd = if d == b'9' { '1' } else { (d + 1) as char };
+                                    format!("{}{}{}", &text[..p], nd, &text[p + 1..])
+                                }
+                                None => format!("{}x", text),
+                            }
+                        }
+                        2 => {
+                            acc.cov("previous-report:expected-text-plus-a-line");
+                            format!("{}- Extra.sol:1\n", text)
+                        }
+                        _ => {
+                            acc.cov("previous-report:expected-text");
+                            text
+                        }
+                    };
+                    std::fs::write(&report_path, variant).unwrap();
+                }
             }
             let prev_report = std::fs::read(&report_path).ok();
             let use_strace = strace && (k + step as u64) % strace_every == 0;
@@ -374,7 +421,7 @@ pub fn run(ctx: &Ctx) -> i32 {
                 }
             }
             // 2b. the report against an expectation that does not come from the binary: every eligible file analysed on its own
-            if !failing && code == Some(0) {
+            if !failing && !empty_selection && code == Some(0) {
                 let mut exp = vec![];
                 if expected_findings(&tree, &all_dets(), &mut exp).is_ok() {
                     if let Some(r) = &now_report {
